@@ -29,11 +29,15 @@ type Mut struct {
 // extractors with zip fixtures).
 var mutOps = []string{
 	"trunc", "delline", "dupline", "swapline", "deltok", "duptok", "swaptok", "scalar", "splice",
-	"flip", "setbyte", "insert", "crlf", "crcrlf", "eol", "bom", "dropnl", "subdel", "elfsec", "jsonnode", "nest", "repeat", "delrange", "strprefix", "strsuffix", "strempty",
+	"flip", "setbyte", "insert", "crlf", "crcrlf", "eol", "linepre", "bom", "dropnl", "subdel", "elfsec", "jsonnode", "nest", "repeat", "delrange", "strprefix", "strsuffix", "strempty",
 }
 
 // lineEnds replace the terminator of one line (op "eol").
 var lineEnds = []string{"\r\n", "\r", "\r\r\n", "\n\n", "\n\r\n", "\n\r\r\n", "", " \n", "\t\r\n", "\x00\n", "\n \n"}
+
+// linePrefixes are put in front of one line (op "linepre"): bytes that are not UTF-8 (a Latin-1
+// text), letters whose lower-case form is longer in UTF-8, and comment / indentation markers.
+var linePrefixes = []string{"\xe9\xe0\xe8\xf6", "\u023a\u023e\u023a\u023e", "\xff\xfe\xff\xfe\xff\xfe\xff\xfe", "\t", "#", "// ", "\u00a0", "- "}
 
 // hostileAffixes are put at the start / end of the content of a quoted string or bare value.
 var hostileAffixes = []string{"npm:", "file:", "git+", "@", "../", "-r ", "workspace:", "link:", "https://", "github:", "/", ":", "v", "=", "#", "\\", " ", "a@", "@a/", "+", "-", ".", "!", "~", "^", "*", "%", "[", "{", "<", "&"}
@@ -326,6 +330,14 @@ func applyMut(b []byte, m Mut) []byte {
 		return elfSectionMutate(b, m)
 	case "jsonnode":
 		return jsonNodeMutate(b, m)
+	case "linepre":
+		// linePrefixes[B] is put in front of line A
+		ls := lineSpans(b)
+		if len(ls) == 0 {
+			return b
+		}
+		x := ls[mod(m.A, len(ls))]
+		return replaceSpan(b, [2]int{x[0], x[0]}, []byte(linePrefixes[mod(m.B, len(linePrefixes))]))
 	case "bom":
 		return append([]byte("\xef\xbb\xbf"), b...)
 	case "dropnl":
